@@ -72,6 +72,7 @@ def _write_bw(path, track, chroms):
 
 
 def loci_case(case, ctx):
+    tix_ = case.get("target_idx", 0) if case["n_signals"] > 1 else 0
     chroms = _genome(case)
     names = list(chroms)
     n_sig, n_in = case["n_signals"], case["n_in_signals"]
@@ -133,6 +134,9 @@ def loci_case(case, ctx):
         mem_seq = {n: gen.encode(s.upper(), "ACGT", torch.int8).numpy() for n, s in chroms.items()}
         kw = dict(in_window=in_w, out_window=out_w, max_jitter=jit, chroms=allowed, n_loci=case.get("n_loci"),
                   min_counts=case.get("min_counts"), max_counts=case.get("max_counts"))
+        tix = case.get("target_idx", 0) if n_sig > 1 else 0
+        if tix:
+            kw["target_idx"] = tix
 
         def call(files):
             seqs = fa if files else mem_seq
@@ -157,7 +161,7 @@ def loci_case(case, ctx):
                     return r["status"] == "inside"
                 cand = [r for r in exp_rows if survives(r)]
                 if n_sig and (case.get("min_counts") is not None or case.get("max_counts") is not None):
-                    cand = [r for r in cand if _passes(r, sig[0], case)]
+                    cand = [r for r in cand if _passes(r, sig[tix_], case)]
                 if case.get("n_loci") == 0:
                     cand = []
                 require(len(cand) == 0, "extract-raised-with-keepable-loci",
@@ -170,7 +174,7 @@ def loci_case(case, ctx):
             # The rows returned must be explainable, in order, by the interleaved loci: a locus strictly inside MUST be present, a
             # touching one MAY be, a crossing / filtered one must not.  Rows can coincide by chance (in_window = 1 ...), so this is
             # decided by a memoised search over "optional row present / absent", not greedily.
-            cands = [r for r in exp_rows if r["status"] != "cross" and not (n_sig and not _passes(r, sig[0], case))]
+            cands = [r for r in exp_rows if r["status"] != "cross" and not (n_sig and not _passes(r, sig[tix_], case))]
             cap = case.get("n_loci")
 
             def expected(r):
@@ -329,6 +333,8 @@ def loci_strategy(draw):
             "rewrite_signals": draw(st.integers(0, 3)) == 0}
     if nchr > 1 and draw(st.integers(0, 3)) == 0:
         case["chroms"] = sorted(draw(st.sets(st.integers(0, nchr - 1), min_size=1, max_size=nchr)))
+    if n_sig > 1:
+        case["target_idx"] = draw(st.integers(0, n_sig - 1))
     if draw(st.integers(0, 4)) == 0:
         case["n_loci"] = draw(st.integers(1, 6))
     if n_sig and draw(st.integers(0, 2)) == 0:
